@@ -65,6 +65,7 @@ type target struct {
 	MutRange     bool              // `for _, e := range xs { e.f = v }` over a slice of POINTERS: the loop rebuilds `xs` element by element
 	Post         string            // raw Lean text emitted after the definition (total wrappers of partial definitions)
 	Pre          string            // raw Lean `let` lines opening the body (names a bare `return` / the fall-through refers to)
+	MapRange     bool              // `for k := range m` over a Go map: iterate the keys of the view (a list of pairs)
 	Sets         []string          // Go maps used as sets (`map[K]struct{}`): literal = empty list, comma-ok read = membership, index write = insert
 }
 
@@ -1107,10 +1108,21 @@ func (x *tr) rangeLoop(v *ast.RangeStmt, rest []ast.Stmt, fall, ind string) stri
 	if v.Value != nil {
 		elem = x.ident(v.Value.(*ast.Ident).Name)
 	}
+	keysOnly := false
 	if v.Key != nil {
 		if id, ok := v.Key.(*ast.Ident); !ok || id.Name != "_" {
-			return x.errf("range with index variable")
+			if ok && v.Value == nil && x.t.MapRange {
+				// `for k := range m` over a Go map (the target says so): the keys, in the order of the view
+				elem = x.ident(id.Name)
+				keysOnly = true
+			} else {
+				return x.errf("range with index variable")
+			}
 		}
+	}
+	rangeX := x.expr(v.X)
+	if keysOnly {
+		rangeX = "(GoLib.keys " + rangeX + ")"
 	}
 	vars := x.assigned(v.Body.List)
 	if elem != "_" { // the range variable itself may be re-bound in the body (value copy): never loop state
@@ -1123,7 +1135,7 @@ func (x *tr) rangeLoop(v *ast.RangeStmt, rest []ast.Stmt, fall, ind string) stri
 		}
 		vars = vars[:k]
 	}
-	if elem != "_" && writesField(v.Body.List, v.Value.(*ast.Ident).Name) {
+	if elem != "_" && !keysOnly && writesField(v.Body.List, v.Value.(*ast.Ident).Name) {
 		// a write through the range variable: only meaningful for a slice of pointers (no type information here,
 		// so the target has to say so); the loop then rebuilds the slice, element by element, in the state `acc'`
 		if !x.t.MutRange {
@@ -1162,7 +1174,7 @@ func (x *tr) rangeLoop(v *ast.RangeStmt, rest []ast.Stmt, fall, ind string) stri
 	if x.inLoop {
 		retArm = "GoLib.Step.ret r'"
 	}
-	return "match GoLib.forRange " + x.expr(v.X) + " " + st + " (fun " + elem + " " + lamPat(st) + " =>\n" + ind2 + body + ") with\n" +
+	return "match GoLib.forRange " + rangeX + " " + st + " (fun " + elem + " " + lamPat(st) + " =>\n" + ind2 + body + ") with\n" +
 		ind + "| .ret r' => " + retArm + "\n" +
 		ind + "| .done " + lamPat(st) + " =>\n" + ind + "  " + after
 }
